@@ -94,6 +94,10 @@ class MACDataService(MACService):
         source_address = pdu.src_addr if hasattr(pdu, "src_addr") else None
         destination_pan_id = pdu.dest_panid if hasattr(pdu, "dest_panid") else None
         destination_address = pdu.dest_addr if hasattr(pdu, "dest_addr") else None
+        if source_pan_id is None and source_address is not None and pdu.fcf_panidcompress:
+            # PAN ID compression: the source PAN identifier is not carried by the
+            # frame, it is the destination PAN identifier.
+            source_pan_id = destination_pan_id
         payload = pdu[Dot15d4Data].payload if Dot15d4Data in pdu else pdu[Dot15d4].payload
         link_quality = pdu.metadata.lqi if hasattr(pdu, "metadata") and hasattr(pdu.metadata, "lqi") else 255
         return (payload, {
